@@ -651,7 +651,81 @@ DIVERGENT = [
 DIVERGENT_SEEDS = [0, 1, 2, 3, 5, 8, 13, 21]
 
 
+# ---------------------------------------------------------------------------
+# NAMED PROBES of scale (no randomness): documents the PARSER accepts (it nests to ~250 levels) at depth 50 (must be
+# validated and executed) and 200 (today: RecursionError, findings H13a / H13b). A failure at depth 50 has its own
+# signature and is NOT covered by the known findings.
+DEEP_SDL = "type Query { q: Query, f(o: In): Int }\ninput In { n: In, a: Int }\n"
+DEEP_DEPTHS = (50, 200)
+
+
+def deep_document(kind, d):
+    if kind == "selection-set":
+        return "{ " + "q { " * d + "f" + " }" * d + " }"
+    if kind == "input-object-literal":
+        return "{ f(o: " + "{n: " * d + "{a: 1}" + "}" * d + ") }"
+    if kind == "fragment-chain":
+        return "{ ...F0 } " + " ".join("fragment F%d on Query { q { ...F%d } }" % (i, i + 1) for i in range(d)) + " fragment F%d on Query { f }" % d
+    raise ValueError(kind)
+
+
+def deep_outcome(kind, d):
+    """('ok' | 'rejected' | 'validate-raises:<Class>' | 'execute-raises:<Class>' | 'unparseable')"""
+    from py_gql import build_schema, graphql_blocking
+    from py_gql.lang import parse
+    from py_gql.validation import validate_ast
+    schema = build_schema(DEEP_SDL)
+    schema.default_resolver = lambda root, c, info, **a: 1 if info.field_definition.name == "f" else {}
+    text = deep_document(kind, d)
+    try:
+        ast = parse(text)
+    except Exception:  # noqa  (the parser's own limit belongs to C01)
+        return "unparseable"
+    try:
+        v = validate_ast(schema, ast)
+    except RecursionError:
+        return "validate-raises:RecursionError"
+    except Exception as e:  # noqa
+        return "validate-raises:" + type(e).__name__
+    if v.errors:
+        return "rejected"
+    from py_gql import process_graphql_query
+    # both executors the entry points offer: BlockingExecutor (graphql_blocking) and the generic Executor
+    for fn in (graphql_blocking, process_graphql_query):
+        try:
+            r = fn(schema, ast)
+        except RecursionError:
+            return "execute-raises:RecursionError"
+        except Exception as e:  # noqa
+            return "execute-raises:" + type(e).__name__
+        if r.errors or r.data is None:
+            return "errors"
+    return "ok"
+
+
+def deep_probes(ctx):
+    for kind in ("selection-set", "input-object-literal", "fragment-chain"):
+        for d in DEEP_DEPTHS:
+            out = deep_outcome(kind, d)
+            ctx.count()
+            ctx.stat("deep:%s:%d:%s" % (kind, d, out))
+            if out in ("ok", "unparseable"):
+                continue
+            where = "deep-nesting" if d >= 200 else "nesting-%d" % d
+            detail = {"probe": "deep", "deep_kind": kind, "depth": d, "sdl": DEEP_SDL, "document": deep_document(kind, d)[:100] + "...", "outcome": out}
+            if out.startswith("validate-raises:"):
+                ctx.fail("validate-raises:%s:%s:%s" % (out.split(":")[1], where, kind),
+                         "validate_ast raises %s on a parseable document nested %d levels (%s) instead of returning its list of errors"
+                         % (out.split(":")[1], d, kind), detail)
+            elif out.startswith("execute-raises:"):
+                ctx.fail("internal-exception-on-validated-operation:%s:%s" % (out.split(":")[1], ("deep-" if d >= 200 else "%d-" % d) + kind),
+                         "validation accepted a document of depth %d (%s); executing it raised %s" % (d, kind, out.split(":")[1]), detail)
+            else:
+                ctx.fail("deep-probe-%s:%s:%d" % (out, kind, d), "a valid deep document (%s, depth %d) is %s" % (kind, d, out), detail)
+
+
 def fixed_cases(ctx, lean_batch):
+    deep_probes(ctx)
     schema, holder, dump = X.build(FIXED_SDL, 0)
     fragment_chain(ctx, schema)
     for label, text, vs in FIXED:
@@ -724,6 +798,10 @@ def replay(ctx, data):
     from py_gql.lang import parse
     from py_gql.validation import validate_ast
     inp = data.get("input", data)
+    if inp.get("probe") == "deep":
+        out = deep_outcome(inp["deep_kind"], inp["depth"])
+        print("deep probe %s depth %d: %s" % (inp["deep_kind"], inp["depth"], out))
+        return out in ("ok", "unparseable")
     schema, holder, dump = X.build(inp["sdl"], inp.get("enum_kind", 0))
     text = inp.get("small") or inp["document"]
     ok = True
